@@ -82,7 +82,7 @@ def corner_cases(rng, tier, want_pred=None, forms=None):
 def large_cases(rng, want_pred=None):
     """beyond every small-length sweep: bodies just above 64 KiB, one corruption each, every classic open form"""
     cs = []
-    for n in (65536, 65537, 70001):
+    for n in (65536, 65537, 70001, (1 << 20) - 1, 1 << 20, (1 << 20) + 1):
         I = Inst(rng, n, style=0)
         for form in OPEN_FORMS:
             f = form.split(" ")[0]
@@ -93,7 +93,7 @@ def large_cases(rng, want_pred=None):
             ct = I.sealed if sealed else (I.sb if secret else I.bx)
             over = 48 if sealed else 16
             cs.append(Case(open_line(form, I), cls="large-untampered/" + f, expect=(lambda a, e="ok " + hx(I.msg): a == e)))
-            for pos in (over - 1, over, len(ct) // 2, len(ct) - 1):
+            for pos in ((over - 1, over, len(ct) // 2, len(ct) - 1) if n < (1 << 19) else (len(ct) // 2,)):
                 t = bytearray(ct); t[pos] ^= 0x10
                 t = bytes(t)
                 if "inplace" in f:
